@@ -434,6 +434,233 @@ class _Run:
         return self.log.digest()
 
 
+class SimPtyMaster:
+    """Master side of the pty of the hosted program: what the program wrote is read by urwid in
+    os.read() chunks; what urwid writes (key encodings, DSR/CPR/DA replies) and every TIOCSWINSZ
+    are recorded for the peer."""
+
+    def __new__(cls, world):
+        from simkit import world as W  # noqa: PLC0415
+
+        class _Master(W.ByteQueue):
+            kind = "pty"
+
+            def __init__(self, w):
+                super().__init__(w, "pty-master")
+                self.nonblocking = True
+                self.written = bytearray()
+                self.winsizes: list[tuple[int, int]] = []
+                self.reads_after_close = 0
+
+            def write(self, data):
+                self.written.extend(data)
+                return len(data)
+
+            def set_winsize(self, cols, rows):
+                self.winsizes.append((cols, rows))
+
+        return _Master(world)
+
+
+class _FakeOs:
+    """`os` attribute of urwid.vterm: no real process exists behind the fake pty."""
+
+    def __init__(self, run):
+        self._run = run
+
+    def kill(self, pid, sig):
+        self._run.kills.append(int(sig))
+
+    def waitpid(self, pid, flags):
+        return (pid, 0)
+
+    def __getattr__(self, name):
+        return getattr(os, name)
+
+
+class _WidgetRun:
+    """Layer B: the Terminal widget in a real MainLoop on the select loop; pty.fork is replaced by a
+    scripted peer that writes chunks at scheduled times and may hang up."""
+
+    def __init__(self, scen: dict, res: Result) -> None:
+        self.scen = scen
+        self.res = res
+        self.kills: list[int] = []
+
+    def violate(self, clause, sig, msg=""):
+        self.res.violate(P, clause, sig + " layer=widget", msg)
+        self.world.log.add("violation", f"{clause} {sig}")
+
+    def run(self) -> str:  # noqa: C901, PLR0912, PLR0915
+        import errno  # noqa: PLC0415
+        import sys  # noqa: PLC0415
+
+        import urwid  # noqa: PLC0415
+        from simkit import loops  # noqa: PLC0415
+        from simkit import world as W  # noqa: PLC0415
+        from simkit.core import Livelock, Quiescent  # noqa: PLC0415
+        from simkit.refterm import RefTerm as _RT  # noqa: PLC0415
+        from urwid import vterm  # noqa: PLC0415
+        from urwid.display import _posix_raw_display as prd  # noqa: PLC0415
+
+        scen, res = self.scen, self.res
+        cfg = scen["config"]
+        w = self.world = W.World(tiebreak=cfg.get("tiebreak", ()))
+        W.activate(w)
+        saved = (vterm.pty, vterm.os, vterm.atexit, vterm.time, vterm.selectors, sys.stdin)
+        urwid.util.set_encoding("utf-8")
+        box = None
+        try:
+            cols, rows = cfg["size"]
+            tty = W.SimTTY(w, "tty", cols, rows)
+            term_out = _RT(cols, rows)
+            screen = prd.Screen(input=W.SimTTYIn(tty), output=W.SimTTYOut(w, tty, term_out))
+            master = SimPtyMaster(w)
+            run = self
+
+            class _Pty:
+                @staticmethod
+                def fork():
+                    return 4242, master.fd
+
+            class _Atexit:
+                @staticmethod
+                def register(fn, *a, **k):
+                    return fn
+
+            vterm.pty, vterm.os, vterm.atexit = _Pty, _FakeOs(run), _Atexit
+            vterm.time = W.FakeTimeModule(W.current)
+            vterm.selectors = W.FakeSelectorsModule()
+            sys.stdin = W.SimTTYIn(tty)
+            box = loops.make_loop("select", w)
+            closed = []
+            ml = urwid.MainLoop(urwid.SolidFill(" "), screen=screen, event_loop=box.loop, handle_mouse=False)
+            term = vterm.Terminal(["fake-program"], main_loop=ml, encoding="utf-8")
+            ml.widget = term
+            urwid.connect_signal(term, "closed", lambda *_a: closed.append(w.rel()))
+            sizes = [(cols, rows)]
+            # the hosted program and the user
+            t = 0.25
+            whole = bytearray()
+            n_feed_calls = [0]
+            orig_feed = term.feed
+
+            def feed():
+                n_feed_calls[0] += 1
+                if term.terminated:
+                    master.reads_after_close += 1
+                return orig_feed()
+
+            term.feed = feed
+            for op in scen["ops"]:
+                t += float(op.get("dt", 1 / 1024))
+                k = op["op"]
+                if k == "out":
+                    data = bytes.fromhex(op["hex"])
+                    whole += data
+                    w.schedule(t, f"prog>{op['hex'][:24]}", lambda data=data: master.feed(data))
+                elif k == "spurious":
+                    w.schedule(t, "spurious-wakeup", lambda: setattr(master, "spurious", master.spurious + 1))
+                elif k == "resize":
+
+                    def rz(c=op["size"][0], r=op["size"][1]):
+                        tty.cols, tty.rows = c, r
+                        term_out.resize(c, r)
+                        sizes.append((c, r))
+                        import signal as _s  # noqa: PLC0415
+
+                        h = _s.getsignal(_s.SIGWINCH)
+                        if callable(h):
+                            h(_s.SIGWINCH, None)
+
+                    w.schedule(t, f"sigwinch {op['size']}", rz)
+                    res.fault("resize_between_chunks")
+                elif k == "key":
+                    w.schedule(t, f"tty<{op['hex']}", lambda d=bytes.fromhex(op["hex"]): tty.feed(d))
+                elif k == "hangup":
+
+                    def hang(mode=op.get("mode", "eio")):
+                        if mode == "eio":
+                            master.hangup_errno = errno.EIO
+                        else:
+                            master.eof = True
+                        res.fault(f"hangup_{mode}")
+
+                    w.schedule(t, f"hangup {op.get('mode', 'eio')}", hang)
+            t_end = t + 1.0
+
+            def quit_(loop, data):
+                raise urwid.ExitMainLoop
+
+            ml.set_alarm_in(t_end, quit_)
+            master.read_caps = list(cfg.get("read_caps", []))
+            w.log.add("cfg", [cols, rows, len(scen["ops"])])
+            exc = None
+            try:
+                ml.run()
+            except Quiescent:
+                self.violate("C15.7", "loop-went-quiescent", "")
+            except Livelock as e:
+                self.violate("C15.7", "livelock-after-hangup" if (master.eof or master.hangup_errno) else "livelock", str(e))
+            except Exception as e:  # noqa: BLE001
+                exc = e
+            if exc is not None:
+                if core.raised_in_harness(exc):
+                    raise core.HarnessError(f"harness exception: {core.format_exc(exc)}") from exc
+                self.violate("C15.1", f"session-raised:{core.exc_signature(exc)}", core.format_exc(exc))
+            else:
+                hung = master.eof or master.hangup_errno is not None
+                if hung:
+                    if len(closed) != 1:
+                        self.violate("C15.7", "closed-not-emitted-exactly-once", f"{len(closed)} times")
+                    if master.reads_after_close:
+                        self.violate("C15.7", "pty-read-after-hangup", f"{master.reads_after_close} feed() calls after termination")
+                    if not term.terminated:
+                        self.violate("C15.7", "not-terminated-after-hangup", "")
+                    res.probe("hangup_handled")
+                elif closed:
+                    self.violate("C15.7", "closed-emitted-without-hangup", "")
+                # window size reported to the program follows the widget's size (terminate() reports 0x0)
+                ws = [s for s in master.winsizes if s != (0, 0)]
+                if ws and ws[-1] != sizes[-1] and not hung:
+                    self.violate("C15.7", "TIOCSWINSZ-differs-from-widget-size", f"program told {ws[-1]}, terminal is {sizes[-1]}")
+                # everything the program wrote reached the emulator: compare with one-shot delivery
+                if not hung and len(sizes) == 1 and term.term is not None:
+                    ref_canvas = vterm.TermCanvas(cols, rows, _StubWidget())
+                    ref_canvas.addstr(bytes(whole))
+                    if ref_canvas.term != term.term.term or ref_canvas.term_cursor != term.term.term_cursor:
+                        self.violate("C15.4", "read-chunking-changes-result", f"stream {bytes(whole).hex()[:200]}")
+                    else:
+                        res.probe("widget_stream_compared")
+                # replies reach the program
+                if term.term is not None and not hung and len(sizes) == 1:
+                    want = "".join(_StubReplies(bytes(whole), cols, rows))
+                    got = bytes(master.written).decode("latin-1")
+                    if want and want not in got and not any(o["op"] == "key" for o in scen["ops"]):
+                        self.violate("C15.3", "replies-not-written-to-the-program", f"want {want!r} got {got!r}")
+            res.sim_time += w.rel()
+            for kf, v in w.faults.items():
+                res.fault(kf, v)
+            res.probe("widget_layer_run")
+        finally:
+            vterm.pty, vterm.os, vterm.atexit, vterm.time, vterm.selectors, sys.stdin = saved
+            if box is not None:
+                box.cleanup()
+            W.deactivate()
+            urwid.util.set_encoding("utf-8")
+        return w.log.digest()
+
+
+def _StubReplies(stream: bytes, cols: int, rows: int) -> list[str]:  # noqa: N802
+    """Replies a TermCanvas fed the whole stream in one go produces."""
+    from urwid import vterm  # noqa: PLC0415
+
+    wid = _StubWidget()
+    c = vterm.TermCanvas(cols, rows, wid)
+    c.addstr(stream)
+    return wid.replies
+
+
 class VtermEngine(Engine):
     prop = P
     name = "vterm"
@@ -454,13 +681,15 @@ class VtermEngine(Engine):
         "IL/DL are followed by CR in generated streams (column after IL/DL differs between terminals)",
         "blank cells are compared by effective background only; bold+colour 0-7 and bright colours 8-15 are folded",
         "numeric parameters are capped at 10^5 (ICH/DCH/IL/DL loop once per unit)",
-        "the Terminal widget layer (pty, fork, os.read chunks, hang-up) is not part of this check yet: TermCanvas is driven directly",
+        "layer B (12% of the runs): the Terminal widget runs in a real MainLoop on the select loop with pty.fork, os.kill/waitpid and atexit replaced; the line discipline of the pty is not modelled",
     ]
     components = {"real": ["urwid.vterm.TermCanvas (parser, CSI table, grid operations, scroll-back, content)", "TermModes, TermCharset"], "stub": ["Terminal widget (respond/set_title/beep/leds)", "hosted program (scripted byte stream)"]}
-    required_probes = ("reference_compared", "scrollback_compared", "resize_inside_utf8_sequence")
+    required_probes = ("reference_compared", "scrollback_compared", "resize_inside_utf8_sequence", "widget_layer_run", "hangup_handled", "widget_stream_compared")
     reducible = ("ops",)
 
     def generate(self, rng: random.Random, tier: str) -> dict:
+        if rng.random() < 0.12:
+            return self.generate_widget(rng)
         enc = rng.choice(["utf8", "utf8", "narrow"])
         w, h = rng.choice([(1, 1), (2, 2), (5, 3), (10, 4), (20, 8), (8, 1), (1, 6), (rng.randint(1, 20), rng.randint(1, 8))])
         clean = rng.random() < 0.55
@@ -487,8 +716,39 @@ class VtermEngine(Engine):
             ops[i:i] = [{"op": "feed", "hex": "e6", "ref": False}, {"op": "resize", "size": [max(1, w - 1), h]}, {"op": "feed", "hex": "97a5", "ref": False}]
         return {"config": {"enc": enc, "size": [w, h]}, "ops": ops}
 
+    def generate_widget(self, rng: random.Random) -> dict:
+        """Layer B scenario: Terminal widget in a MainLoop; the program writes chunks, may hang up."""
+        w, h = rng.choice([(10, 4), (20, 8), (5, 3), (rng.randint(2, 20), rng.randint(2, 8))])
+        ops = []
+        for _ in range(rng.randint(1, 12)):
+            r = rng.random()
+            dt = rng.choice([0.0, 0.0, 1 / 1024, 0.125, 0.5])
+            if r < 0.7:
+                data, _in_ref, _kind = gen_piece(rng, "utf8", w, h, rng.random() < 0.5)
+                ops.append({"op": "out", "hex": data.hex(), "dt": dt})
+            elif r < 0.78:
+                ops.append({"op": "spurious", "dt": dt})
+            elif r < 0.86:
+                ops.append({"op": "resize", "size": [rng.randint(2, 20), rng.randint(2, 8)], "dt": dt})
+            elif r < 0.93:
+                ops.append({"op": "key", "hex": rng.choice(["61", "0d", "1b5b41", "7f"]), "dt": dt})
+            else:
+                ops.append({"op": "hangup", "mode": rng.choice(["eio", "eof"]), "dt": dt})
+                break
+        cfg = {"mode": "widget", "size": [w, h], "tiebreak": [rng.randrange(4) for _ in range(6)]}
+        if rng.random() < 0.4:
+            cfg["read_caps"] = [rng.choice([0, 1, 2, 5]) for _ in range(rng.randint(1, 8))]
+        return {"config": cfg, "ops": ops}
+
     def execute(self, scen: dict) -> Result:
         res = Result()
+        if scen["config"].get("mode") == "widget":
+            wr = _WidgetRun(scen, res)
+            res.digest = wr.run()
+            res.nontrivial = True
+            if os.environ.get("VERIF_KEEP_LOG"):
+                res.info["log"] = wr.world.log.lines
+            return res
         run = _Run(scen, res)
         res.digest = run.run()
         if res.probes.get("reference_compared") or res.faults.get("resize_between_bytes") or res.faults.get("chunk_boundary"):
@@ -498,6 +758,10 @@ class VtermEngine(Engine):
         return res
 
     def simplify(self, scen: dict):
+        if scen["config"].get("mode") == "widget":
+            if scen["config"].get("read_caps"):
+                yield dict(scen, config={k: v for k, v in scen["config"].items() if k != "read_caps"})
+            return
         for i, op in enumerate(scen["ops"]):
             if op["op"] == "feed":
                 if op.get("cuts"):
